@@ -44,7 +44,8 @@ def run(rep, tier, seed):
                        "irreducible edges, unreachable blocks, loop at the entry) x widening delay 0-3 x descending iterations 0-3 x "
                        "optional initial constraints; non-trivial = has a loop and at least two blocks with a non-top non-bottom entry invariant")
     rep.assumptions = ["theorems are about the engine/transformer model; implementation tied on generated programs",
-                       "thresholds (max_thresholds>0) and liveness pruning are not in the mirror: those configurations are covered by the verified checker on the implementation's output and by the concrete oracle",
+                       "thresholds (max_thresholds>0: thresholds collected per WTO cycle by wto_thresholds) and liveness pruning (prune_dead_variables with the liveness of C18) are mirrored (Fix/WtoThresholds.v, Ana/FwdItvLive.v) and proved sound and terminating (Ana/FwdItvFullSound.v); stream fwd-thresholds-liveness: exact agreement of the tables for thr in {0,1,3,4,5,6,10,50} x live in {0,1}; CFGs without function declaration (no formals / outputs)",
+                       "in stream fwd-thresholds-liveness the table checker is not run on the model's own tables (selfcheck=0): they are sound by theorem but, like the implementation's, not always inductive after a descending phase over nested loops; the checker still runs on the implementation's tables (fwd-params-validated), where a rejection counts as a violation only if the tables differ from the model's or the oracle has a witness",
                        "domains other than intervals: oracle only (see C03 search)"]
     vlib.prove(rep)
     lines = cfgprog.gen(seed + 1, tier)
@@ -52,25 +53,92 @@ def run(rep, tier, seed):
                         nontrivial=cfgprog.nontrivial, key=lambda l: "program")
     if r:
         validate_stream(rep, "fwd-intervals-validated", lines, r[0])
-    # configurations outside the mirror: thresholds and liveness pruning
+    # configurations outside the mirror of FwdItv.v: thresholds and liveness pruning.  They are mirrored by
+    # Fix/WtoThresholds.v + Ana/FwdItvLive.v (fwd_run_full) and proved sound / terminating in
+    # Ana/FwdItvFullSound.v: exact correspondence of the invariant tables, oracle, and the verified table
+    # checker (pruned transformer when live=1) on the implementation's tables.
     lines2 = cfgprog.gen(seed + 101, tier, n=(150 if tier == "quick" else 4000),
-                         opts={"fixed_opts": [("thr", 10), ("live", 1)]})
-    hexe, err = vlib.build_harness("fwditv")
+                         opts={"fixed_opts": [("thr", 10), ("live", 1), ("selfcheck", 0)]})
+    lines2 += cfgprog.gen_thrlive(seed + 202, tier)
+    r2 = vlib.run_stream(rep, "fwd-thresholds-liveness", "fwditv", "fwditv", lines2, oracle=cfgprog.oracle,
+                         nontrivial=thrlive_nontrivial, key=cfgprog.thrlive_key)
+    if r2:
+        option_effect(rep, "fwd-thresholds-liveness", lines2, r2[1])
+        validate_stream2(rep, "fwd-params-validated", lines2, r2[0], r2[1])
+
+
+def thrlive_nontrivial(line, ans):
+    """rule: thr > 3 (thresholds can be added) or live = 1, and the program has a loop head whose entry
+    invariant is neither bottom nor top"""
+    o = dict(x.split("=") for x in line.split(" | ")[0].split()[4:] if "=" in x)
+    return (int(o.get("thr", "0")) > 3 or o.get("live", "0") == "1") and cfgprog.nontrivial_loop(line, ans)
+
+
+def _run_driver(path, lines):
+    dexe, err = vlib.build_driver("fwditv")
     if err:
-        rep.violation("fwd-params-build", err, False); return
+        return None
+    with open(path, "w") as f:
+        f.write("\n".join(lines) + "\n")
+    rc, out = vlib.sh([dexe, path], timeout=900)
+    res = {}
+    for l in out.split("\n"):
+        if l.startswith("R "):
+            sp = l.split(" ", 2); res[int(sp[1])] = sp[2] if len(sp) > 2 else ""
+    return res
+
+
+def option_effect(rep, name, lines, model):
+    """coverage only: on how many cases does each option change the tables (model with the option switched off)"""
+    import re
     d = os.path.join(vlib.VERIF, "out", rep.prop)
-    cf = os.path.join(d, "fwd-params.cases")
-    open(cf, "w").write("\n".join(lines2) + "\n")
-    impl2 = vlib.run_harness_resilient(hexe, [], cf, len(lines2), 600)
+    nothr = _run_driver(os.path.join(d, name + ".nothr"), [re.sub(r" thr=\d+", " thr=0", l) for l in lines])
+    nolive = _run_driver(os.path.join(d, name + ".nolive"), [re.sub(r" live=\d", " live=0", l) for l in lines])
+    if nothr is None or nolive is None:
+        return
+    st = rep.cov["streams"][name]
+    st["cases_where_thresholds_change_the_tables"] = sum(1 for i in range(len(lines)) if model.get(i) != nothr.get(i))
+    st["cases_where_pruning_changes_the_tables"] = sum(1 for i in range(len(lines)) if model.get(i) != nolive.get(i))
+
+
+def validate_stream2(rep, name, lines, impl, model):
+    """the Coq-verified inductiveness checker (for the pruned transformer when live=1) on the implementation's own
+    tables.  Tables can be sound without being inductive (after a descending phase over nested loops stale
+    post-states remain, in the implementation and in the model alike): a rejection is a violation only if the
+    tables differ from the model's (whose soundness is theorem C01_engine_sound_thresholds_liveness) or the
+    oracle has a concrete witness."""
+    dexe, err = vlib.build_driver("fwditv")
+    if err:
+        rep.violation(name + "-driver", err, False); return
+    d = os.path.join(vlib.VERIF, "out", rep.prop)
+    vf = os.path.join(d, name + ".validate")
+    idx = [i for i in range(len(lines)) if impl.get(i) and impl[i] not in ("ABORT", "MISSING")]
+    with open(vf, "w") as f:
+        for i in idx:
+            f.write(lines[i] + " ### " + impl[i] + "\n")
+    rc, out = vlib.sh([dexe, "--validate", vf], timeout=900)
+    res = {}
+    for l in out.split("\n"):
+        if l.startswith("R "):
+            sp = l.split(" ", 2); res[int(sp[1])] = sp[2] if len(sp) > 2 else ""
+    bad = [idx[j] for j in range(len(idx)) if res.get(j) != "ok"]
+    same = [i for i in bad if impl.get(i) == model.get(i)]
+    rep.cov["streams"][name] = {"cases": len(idx), "validated_by_verified_checker": len(idx) - len(bad),
+                                "rejected": len(bad), "rejected_but_equal_to_the_proved_sound_model": len(same)}
+    rep.cov["evaluations"] += len(idx)
     import random
-    rng = random.Random(seed)
-    hits = 0
-    for i, l in enumerate(lines2):
-        w = cfgprog.oracle(l, impl2.get(i, "MISSING"), rng)
+    rng = random.Random(rep.seed)
+    n = 0
+    for i in bad:
+        w = cfgprog.oracle(lines[i], impl[i], rng)
+        if i in same and not w:
+            continue
+        n += 1
+        if n > 3:
+            break
+        text = ("the Coq-verified invariant checker (theorems C01_checked_tables_sound / C01_checked_tables_sound_liveness) rejects the "
+                "implementation's invariants, which also differ from the model's\ninput: %s\nimplementation: %s\nmodel: %s\n"
+                % (lines[i], impl[i], model.get(i)))
         if w:
-            hits += 1
-            if hits <= 2:
-                rep.violation("fwd-params-%d" % i, "FAILING INPUT: " + w + "\ninput: " + l + "\nimplementation: " + impl2.get(i, ""), True)
-    rep.cov["streams"]["fwd-thresholds-liveness-oracle"] = {"cases": len(lines2), "oracle_violations": hits}
-    rep.cov["evaluations"] += len(lines2)
-    validate_stream(rep, "fwd-params-validated", lines2, impl2)
+            text = "FAILING INPUT: " + w + "\n" + text
+        rep.violation("%s-%d" % (name, i), text, bool(w))
